@@ -50,7 +50,7 @@ def gen(tier, rng):
         cases.append(sg.line(kind, mx, pre, 60000, senders, sends, faults, sg.prefill(pre) + sg.random_schedule(rng, kind, senders, sends)))
     # a reply that comes after the client's timeout: the connection is out of step with the peer and carries nothing more
     # (blocking transport; the tokio client has no deadline of its own)
-    for t in {"quick": [150], "search": [120, 250], "thorough": [100, 150, 250, 400]}[tier]:
+    for t in {"quick": [300], "search": [200, 300], "thorough": [200, 300, 400]}[tier]:
         cases.append(f"late\t{t}")
     if tier == "thorough":
         for kind in "s":
